@@ -9,16 +9,18 @@ recognised test on *the* tracked value refines nothing (over-approximation).
 """
 from lib import walk, strip_refs, block_last
 
-ALL = frozenset(["null", "bool", "u64", "neg", "float", "string", "array", "object"])
-NUM = frozenset(["u64", "neg", "float"])
+# numbers: "u64" = non-negative integer that fits i64, "big" = integer above i64::MAX (u64 only), "neg" = negative integer,
+# "float" = number with a fractional part / exponent (serde_json keeps the three representations apart)
+ALL = frozenset(["null", "bool", "u64", "big", "neg", "float", "string", "array", "object"])
+NUM = frozenset(["u64", "big", "neg", "float"])
 AS = {
     "as_str": {"string"}, "as_array": {"array"}, "as_object": {"object"}, "as_null": {"null"}, "as_bool": {"bool"},
-    "as_u64": {"u64"}, "as_i64": {"u64", "neg"}, "as_f64": set(NUM), "as_number": set(NUM),
+    "as_u64": {"u64", "big"}, "as_i64": {"u64", "neg"}, "as_f64": set(NUM), "as_number": set(NUM),
     "as_array_mut": {"array"}, "as_object_mut": {"object"},
 }
 IS = {
     "is_number": set(NUM), "is_string": {"string"}, "is_null": {"null"}, "is_boolean": {"bool"}, "is_array": {"array"},
-    "is_object": {"object"}, "is_u64": {"u64"}, "is_i64": {"u64", "neg"}, "is_f64": {"float"},
+    "is_object": {"object"}, "is_u64": {"u64", "big"}, "is_i64": {"u64", "neg"}, "is_f64": {"float"},
 }
 VARIANT = {"Null": {"null"}, "Bool": {"bool"}, "Number": set(NUM), "String": {"string"}, "Array": {"array"}, "Object": {"object"}}
 PASS_THROUGH = {"ok_or_else", "ok_or", "ok", "map_err", "copied", "cloned", "as_ref", "as_deref", "map", "inspect", "as_mut", "filter"}
